@@ -433,6 +433,8 @@ fn check(id: &str, tier: &str) -> i32
                 plans.push(p);
             }
             run_hist_plans(&mut rep, id, plans);
+            rep.assume("realfs: the same rules text and /bin/sh commands are run by the real binary in a scratch directory; user actions are spaced by 2 ms so that modification times differ");
+            crate::realbin::run_realfs(&mut rep, tier);
         },
         "C17" =>
         {
@@ -541,6 +543,11 @@ fn check(id: &str, tier: &str) -> i32
         {
             rep.assume("bincode 1.3 default configuration, as used by ruler");
             crate::enum_state::run(&mut rep, tier);
+        },
+        "C19" =>
+        {
+            rep.assume("only GET requests; responses are read over a plain TcpStream on 127.0.0.1 from the real binary built from /repo with the guard off; expected answers are computed from the materialised directory with the harness's own codecs");
+            crate::realbin::run_serve(&mut rep, tier);
         },
         _ =>
         {
@@ -654,6 +661,8 @@ fn replay(path: &str) -> i32
             let sig = v["signature"].as_str().unwrap_or("");
             if rep.violations.iter().any(|x| x.signature == sig) { println!("{}", v["summary"].as_str().unwrap_or("")); println!("VIOLATION property={} replay={}", prop, path); 1 } else { 0 }
         },
+        "realfs" => { let rc = crate::realbin::replay_realfs(r); if rc == 1 { println!("VIOLATION property={} replay={}", prop, path); } rc },
+        "serve" => { let rc = crate::realbin::replay_serve(r); if rc == 1 { println!("VIOLATION property={} replay={}", prop, path); } rc },
         other =>
         {
             eprintln!("unknown replay engine {:?}", other);
@@ -698,6 +707,14 @@ pub fn main() -> i32
         {
             if pos.is_empty() { eprintln!("replay needs a file"); return 2; }
             replay(&pos[0])
+        },
+        "setup" =>
+        {
+            match crate::realbin::build_real_binary()
+            {
+                Ok(p) => { println!("built {}", p.display()); 0 },
+                Err(e) => { eprintln!("machinery error: {}", e); 2 },
+            }
         },
         "dpor-debug" =>
         {
